@@ -59,7 +59,11 @@ E2_BLOCKS = {
     'deco': ("x = G\ny = 0.25*x + 1\nd = y + x\nd(0) = %(ic)s\nexogenous", 'd'),
     'const': ("c = 3.0\nx = G + c\nL = x(k-1)\nc(0) = %(ic)s\nexogenous", 'c'),
     'time': ("x = G\nt = k + 10\nL = t(k-1)\nx(0) = %(ic)s\nexogenous", 'x'),
+    # initial condition stated for the time axis itself: the automatic one (t = k is supplied by the parser) and a user-defined one
+    'auto-time-ic': ("x = G\nL = x(k-1)\nd = x + 1\nt(0) = %(ic)s\nexogenous", 't'),
+    'user-time-ic': ("x = G\nt = k + 10\nL = t(k-1)\nt(0) = %(ic)s\nexogenous", 't'),
 }
+USER_TIME = ('time', 'user-time-ic')
 
 
 E2_BUDGET = [60]
@@ -106,11 +110,15 @@ def e2_case(case):
                 out['viol'] = {'why': 'series lengths %r' % ({v: len(ts[v]) for v in ts},), 'g': ['1'] * nval}
             return o
         L = symx.lift
+        if 't' not in ts or icvar not in ts:
+            if out['viol'] is None:
+                out['viol'] = {'why': 'no series for %s (series: %r)' % ('t' if 't' not in ts else icvar, sorted(ts)), 'g': ['1'] * nval}
+            return o
         for k in range(T + 1):
             props.append(L(ts['G'][k]) == gs[k])
             props.append(L(ts['k'][k]) == k)
             if k >= 1:
-                if shape == 'time':
+                if shape in USER_TIME:
                     props.append(L(ts['t'][k]) == k + 10)
                     props.append(L(ts['L'][k]) == L(ts['t'][k - 1]))
                 else:
@@ -147,7 +155,7 @@ REPLAY_E2 = '''
 import sys
 from fractions import Fraction as F
 from sfc_models.equation_solver import EquationSolver
-from vf.props.c10 import E2_BLOCKS
+from vf.props.c10 import E2_BLOCKS, USER_TIME
 shape, T, nval, ic, reduce = %(case)r
 g = [float(F(x)) for x in %(g)r]
 text, icvar = E2_BLOCKS[shape]
@@ -160,8 +168,9 @@ except ValueError as e:
 ts = es.TimeSeries
 print({v: ts[v] for v in ts})
 if nval < T + 1: sys.exit(1)
+if 't' not in ts or icvar not in ts: sys.exit(1)
 ok = all(len(ts[v]) == T + 1 for v in ts) and ts['G'] == g[0:T + 1] and ts[icvar][0] == ic and all(ts['k'][k] == k for k in range(T + 1))
-if shape == 'time':
+if shape in USER_TIME:
     ok = ok and all(ts['t'][k] == k + 10 and ts['L'][k] == ts['t'][k - 1] for k in range(1, T + 1))
 else:
     ok = ok and all(ts['t'][k] == k for k in range(1, T + 1)) and ('L' not in ts or all(ts['L'][k] == ts['x'][k - 1] for k in range(1, T + 1)))
